@@ -1110,8 +1110,10 @@ def needBase (c : SplitCfg) (parts : List GPart) : Bool :=
   (c.flags.extmatchbase && !((parts.head?.map (·.isDrive)).getD false)) ||
   (c.flags.matchbase && parts.length == 1 && !((parts.head?.map (·.dirOnly)).getD false))
 
+/-- the implicit part goes in front only if the list does not already begin with a globstar
+    (the RGLOBSTAR repair) -/
 def withBase (c : SplitCfg) (parts : List GPart) : List GPart :=
-  if needBase c parts then basePart c :: parts else parts
+  if needBase c parts && !((parts.head?.map (·.isGlobstar)).getD false) then basePart c :: parts else parts
 
 /-- the pattern `split` really works on -/
 def effPattern (f : Flags) (p : List Char) : List Char := if isNegative f p then p.take 1 else p
@@ -1284,7 +1286,8 @@ theorem storedParts_shape (c : SplitCfg) (p : List Char) (s : List GPart) (h : s
 /-! ### the whole of `globSplit` -/
 
 /-- **shape of every `globSplit` output**: the stored list `s` of `storedParts_shape`, possibly
-    with the implicit base part in front (and then `s` does not begin with the drive) -/
+    with the implicit base part in front (and then `s` begins neither with the drive nor with a
+    globstar) -/
 theorem globSplit_shape (f : Flags) (isBytes : Bool) (p : List Char) (parts : List GPart)
     (h : globSplit f isBytes p = .ok parts) :
     ∃ s, s ≠ [] ∧ Chain Adj s ∧ (∀ q ∈ s, PartOK (SplitCfg.ofFlags f isBytes) q) ∧
@@ -1292,7 +1295,7 @@ theorem globSplit_shape (f : Flags) (isBytes : Bool) (p : List Char) (parts : Li
       ((effPattern f p).head? ≠ some '/' → ∀ q ∈ s, q.isDrive = false) ∧
       (parts = s ∨
         (parts = basePart (SplitCfg.ofFlags f isBytes) :: s ∧ (∀ q, s.head? = some q → q.isDrive = false) ∧
-          (f.extmatchbase = true ∨ f.matchbase = true))) := by
+          (f.extmatchbase = true ∨ f.matchbase = true) ∧ (∀ q, s.head? = some q → q.isGlobstar = false))) := by
   rw [globSplit_eq] at h
   split at h
   · cases h
@@ -1306,12 +1309,15 @@ theorem globSplit_shape (f : Flags) (isBytes : Bool) (p : List Char) (parts : Li
         obtain ⟨hne, hch, hok, habs, hrel⟩ := storedParts_shape _ _ _ hs
         refine ⟨s, hne, hch, hok, habs, hrel, ?_⟩
         unfold withBase
-        by_cases hb : needBase (SplitCfg.ofFlags f isBytes) s = true
+        by_cases hb : (needBase (SplitCfg.ofFlags f isBytes) s &&
+            !((s.head?.map (·.isGlobstar)).getD false)) = true
         · right
           simp only [hb, if_true, true_and]
+          rw [Bool.and_eq_true] at hb
+          obtain ⟨hb, hgs⟩ := hb
           unfold needBase at hb
           simp only [Bool.or_eq_true, Bool.and_eq_true, Bool.not_eq_true', beq_iff_eq] at hb
-          constructor
+          refine ⟨?_, ?_, ?_⟩
           · intro q hq
             rcases hb with ⟨_, hb⟩ | ⟨_, hb⟩
             · simpa [hq] using hb
@@ -1322,6 +1328,8 @@ theorem globSplit_shape (f : Flags) (isBytes : Bool) (p : List Char) (parts : Li
           · rcases hb with ⟨hb, _⟩ | ⟨⟨hb, _⟩, _⟩
             · exact Or.inl hb
             · exact Or.inr hb
+          · intro q hq
+            simpa [hq] using hgs
         · left
           simp only [hb, Bool.false_eq_true, if_false]
 
@@ -1544,20 +1552,22 @@ theorem globSplit_noLong (f : Flags) (isBytes : Bool) (p : List Char) (parts : L
     have := ((globSplit_globstar f isBytes p parts h q hq).2 hl).2.2
     rw [hf] at this; cases this
 
-/-- **two adjacent parts are never both globstars — except the implicit base part followed by a
-    pattern-initial globstar** (the exception is real: `adjacent_globstar_witness`) -/
+/-- **two adjacent parts are never both globstars** — `store` merges them inside the pattern,
+    and (since the RGLOBSTAR repair) the implicit base part is not put in front of a
+    pattern-initial globstar (`adjacent_globstar_fixed_witness`) -/
 theorem globSplit_adjacent_globstar (f : Flags) (isBytes : Bool) (p : List Char) (parts : List GPart)
     (h : globSplit f isBytes p = .ok parts) :
-    ∀ pre a b post, parts = pre ++ a :: b :: post → a.isGlobstar = true → b.isGlobstar = true →
-      pre = [] ∧ a = basePart (SplitCfg.ofFlags f isBytes) ∧ (f.extmatchbase = true ∨ f.matchbase = true) := by
-  obtain ⟨s, hne, hch, _, _, _, rfl | ⟨rfl, _, hfl⟩⟩ := globSplit_shape f isBytes p parts h
+    ∀ pre a b post, parts = pre ++ a :: b :: post → a.isGlobstar = true → b.isGlobstar = true → False := by
+  obtain ⟨s, hne, hch, _, _, _, rfl | ⟨rfl, _, _, hgs⟩⟩ := globSplit_shape f isBytes p parts h
   · intro pre a b post hp ha hb
     exact absurd ⟨ha, hb⟩ ((chain_iff_adj _).1 hch pre a b post hp).2.2.1
   · intro pre a b post hp ha hb
     cases pre with
     | nil =>
       simp only [List.nil_append, List.cons.injEq] at hp
-      exact ⟨rfl, hp.1.symm, hfl⟩
+      obtain ⟨_, rfl⟩ := hp
+      have := hgs b rfl
+      rw [hb] at this; cases this
     | cons x pre' =>
       simp only [List.cons_append, List.cons.injEq] at hp
       exact absurd ⟨ha, hb⟩ ((chain_iff_adj _).1 hch pre' a b post hp.2).2.2.1
@@ -1568,7 +1578,7 @@ theorem globSplit_nonempty_src (f : Flags) (isBytes : Bool) (p : List Char) (par
     (h : globSplit f isBytes p = .ok parts) :
     ∀ pre a b post, parts = pre ++ a :: b :: post → b.pat.src = [] →
       pre = [] ∧ a = basePart (SplitCfg.ofFlags f isBytes) ∧ (f.extmatchbase = true ∨ f.matchbase = true) := by
-  obtain ⟨s, hne, hch, _, _, _, rfl | ⟨rfl, _, hfl⟩⟩ := globSplit_shape f isBytes p parts h
+  obtain ⟨s, hne, hch, _, _, _, rfl | ⟨rfl, _, hfl, _⟩⟩ := globSplit_shape f isBytes p parts h
   · intro pre a b post hp hb
     exact absurd hb ((chain_iff_adj _).1 hch pre a b post hp).2.2.2
   · intro pre a b post hp hb
@@ -1787,14 +1797,19 @@ theorem globSplit_base_only_ok (f : Flags) (isBytes : Bool) (p : List Char) (par
     refine ⟨s, rfl, ?_⟩
     unfold withBase
     by_cases hb : needBase (SplitCfg.ofFlags f isBytes) s = true
-    · right
-      simp only [hb, if_true, true_and]
-      unfold needBase at hb
-      simp only [Bool.or_eq_true, Bool.and_eq_true] at hb
-      rcases hb with ⟨hb, _⟩ | ⟨⟨hb, _⟩, _⟩
-      · exact Or.inl hb
-      · exact Or.inr hb
-    · left; simp only [hb, Bool.false_eq_true, if_false]
+    · by_cases hg : (s.head?.map (·.isGlobstar)).getD false = true
+      · left; simp [hb, hg]
+      · right
+        have hg' : (s.head?.map (·.isGlobstar)).getD false = false := by simpa using hg
+        refine ⟨by simp [hb, hg'], ?_⟩
+        unfold needBase at hb
+        simp only [Bool.or_eq_true, Bool.and_eq_true] at hb
+        rcases hb with ⟨hb, _⟩ | ⟨⟨hb, _⟩, _⟩
+        · exact Or.inl hb
+        · exact Or.inr hb
+    · left
+      have hb' : needBase (SplitCfg.ofFlags f isBytes) s = false := by simpa using hb
+      simp [hb']
 
 /-- **every compiled part is compiled under `flags & ~(MATCHBASE | _EXTMATCHBASE)`**: a magic part
     other than the base part holds the regex `_wcparse._compile(text, …)` gives for its text under
